@@ -315,6 +315,8 @@ def gen_rfd(rnd, f, kind, direction=DI.BIDIRECTIONAL, side=None):
     fb = bits_of(f.value)
     n = len(fb)
     sd = (lambda: rnd.choice([L, R])) if side is None else (lambda: side)
+    from core import mkj
+    mk = lambda bits, side_=L: mkj(rnd, bits, side_)  # noqa: E731 -- target values built the way callers build them (surplus content)
     if kind == 'comp' and str(getattr(f.id, 'value', f.id)) not in COMPUTABLE:
         kind = 'vs'
     if kind == 'ns':
@@ -338,7 +340,13 @@ def gen_rfd(rnd, f, kind, direction=DI.BIDIRECTIONAL, side=None):
             if v not in vals:
                 vals.append(v)
         rnd.shuffle(vals)
-        fw = {mk(v, sd()): mk(i2b(i, kk), sd()) for v, i in zip(vals, idxs)}
+        codes = [i2b(i, kk) for i in idxs]
+        r_ = rnd.random()
+        if len(vals) == 1 and r_ < 0.4:
+            codes = ['']                                   # the natural width of a one-entry mapping: ceil(log2(1)) = 0 bits
+        elif r_ < 0.3:
+            codes = prefix_free_ids(rnd, len(vals), maxlen=6)   # indices of unequal widths (a prefix code)
+        fw = {mk(v, sd()): mk(c, sd()) for v, c in zip(vals, codes)}
         return RuleFieldDescriptor(f.id, n, f.position, direction, MatchMapping(fw), MO.MATCH_MAPPING, CDA.MAPPING_SENT)
     if kind == 'comp':
         return RuleFieldDescriptor(f.id, n, f.position, direction, Buffer(b'', 0), MO.IGNORE, CDA.COMPUTE)
